@@ -112,6 +112,15 @@ func c10Specs(tier string, seed int) []c10Spec {
 			}
 		}
 	}
+	// long schedules: hundreds of events of one kind (the event tables are filled far beyond their first few slots),
+	// with and without events before the start
+	for _, n := range []int{90, 520, 1150} {
+		for _, pre := range []int{0, 3} {
+			if tier == "thorough" || !(n == 1150 && pre == 0) {
+				out = append(out, c10Spec{What: "irr-many", Window: "start", Fmt: "DateDElong", Other: n, Factor: float64(pre)})
+			}
+		}
+	}
 	// every fertiliser type of the table, alone, on day 3
 	out = append(out, c10Spec{What: "fert-types", Window: "start", Fmt: "DateDElong", Factor: 100}, c10Spec{What: "fert-types", Window: "start", Fmt: "DateENshort", Factor: 70})
 	// sowing and harvest of 1-2 crops inside the period
@@ -201,6 +210,8 @@ func c10Run(raw json.RawMessage, c *mc.Ctx) {
 	sp := mc.Decode[c10Spec](raw)
 	c10LoadFert()
 	switch sp.What {
+	case "irr-many":
+		c10Many(c, sp.Other, int(sp.Factor))
 	case "fert-types":
 		for i, k := range c10FertOrder {
 			c10RunSchedule(c, sp, "fert", []c10Ev{{Off: 3, Amt: float64(30 + i), Kind: k}}, nil, nil, nil)
@@ -650,4 +661,72 @@ func c10Pool(pool, counter []float64) float64 {
 		s += v
 	}
 	return s
+}
+
+// c10Many: n irrigations on consecutive days (pre of them dated before the simulation start): every event dated inside
+// the period is carried out exactly once on its date, none of the earlier ones is.
+func c10Many(c *mc.Ctx, n, pre int) {
+	root := scratchRoot()
+	defer os.RemoveAll(root)
+	days := n + 10
+	b := e1Base{Soil: "sand20", GW: 99, InitW: 0.5, InitN: 10, ET: 3}
+	p := e1Project(b, days)
+	p.Meas.Date = isoAdd(e1Start, 0)
+	p.Config["ManagementEvents"] = "1"
+	for i := 0; i < n; i++ {
+		p.Irr = append(p.Irr, proj.Irr{Date: isoAdd(e1Start, i-pre+1), MM: float64(10 + 10*(i%3)), NConc: float64(i % 4)})
+	}
+	p.Weather = seasonWeather(proj.D(p.WeatherStart), days+12)
+	p.Write(root)
+	start := proj.ZEIT(proj.D(e1Start))
+	applied := map[int]float64{}
+	pr := &hermes.VerifProbe{AfterEvatra: func(g *hermes.GlobalVarsMain, zeit int, w *hermes.WaterSharedVars) {
+		if g.EffectiveIRRIG > 0 {
+			applied[zeit-start] = g.EffectiveIRRIG
+		}
+		c.Transition(1)
+	}}
+	res := proj.Run(root, p.Args(root), pr)
+	c.Trace(1)
+	label := fmt.Sprintf("%d irrigations on consecutive days from day %+d on", n, 1-pre)
+	if !res.Success || res.Panic != "" {
+		c.Violate("run-error irr-many", fmt.Sprintf("%s: run failed on a valid schedule: %s %s", label, res.Err, res.Panic), nil)
+		return
+	}
+	evDays := map[int]int{}
+	for _, l := range strings.Split(res.File("M"), "\n") {
+		f := strings.Fields(l)
+		if len(f) >= 2 && f[1] == "irrigation" {
+			if t, ok := c10ParseDate("DateDElong", f[0]); ok {
+				evDays[proj.ZEIT(t)-start]++
+			}
+		}
+	}
+	h := mc.NewHasher().S("irr-many").I(n).I(pre).Sum()
+	c.State(h)
+	c.NonTrivial(h)
+	for i := 0; i < n; i++ {
+		off := i - pre + 1
+		want := float64(10+10*(i%3)) / 10
+		c.Eval(2)
+		switch {
+		case off < 0 || off > days-1:
+			continue
+		case off == 0:
+			continue // the start day carries the measurement; not judged
+		case evDays[off] != 1:
+			c.Violate("irrigation-not-executed-exactly-once long-schedule", fmt.Sprintf("%s: event %d of the schedule (day %+d) appears %d times in the event file", label, i+1, off, evDays[off]), nil)
+			return
+		case math.Abs(applied[off]-want) > 1e-9:
+			c.Violate("irrigation-amount long-schedule", fmt.Sprintf("%s: on day %+d %.6g cm entered the infiltration, the schedule has %.6g cm", label, off, applied[off], want), nil)
+			return
+		}
+	}
+	for d, k := range evDays {
+		if d < 1-pre+0 || d > n-pre || (d < 0) {
+			c.Violate("unscheduled-irrigation long-schedule", fmt.Sprintf("%s: %d irrigation event(s) on day %+d, where none is scheduled inside the period", label, k, d), nil)
+			return
+		}
+	}
+	c.Outcome(fmt.Sprintf("long-schedule-ok n=%d", n))
 }
